@@ -9,7 +9,7 @@ CONSTANTS
   MaxBlocks = 2
   MaxFaults = 1
   Grain = "op"
-  Weaken = "none"
+  Weaken = "readErrorSwallowed"
   Stale = FALSE
   ReadFaults = TRUE
 INVARIANT DbMatchesRules
